@@ -1,6 +1,7 @@
 """C15 — sniproxy: one live endpoint per name; newest wins; callbacks pair up (DESIGN.md §7 C15)."""
 import json
 
+import rpc_common
 import vlib
 
 META = {
@@ -129,7 +130,11 @@ def run(ck):
 
     binp = ck.build_harness("c15")
     cases = []
-    if binp:
+    replayed = rpc_common.replay_case(ck)
+    if binp and replayed is not None:
+        cases = rpc_common.run_script(ck, binp, [replayed])
+        ck.log("replaying %s: %d case(s)" % (ck.replay, len(cases)))
+    elif binp:
         rc, out, err = vlib.sh2([binp, "-seed", str(ck.seed), "-n", str(n), "-free", str(nfree)], timeout=3000)
         if rc != 0:
             ck.broken.append({"what": "harness run failed", "detail": err[-1500:]})
@@ -138,6 +143,7 @@ def run(ck):
                 cases.append(json.loads(line))
 
     ops = {}
+    shrunk = set()
     for c in cases:
         acts = [(e["a"], e.get("t"), e.get("n"), e.get("seen")) for e in c.get("events", [])]
         trivial = c["stream"] == "forced" and len([s for s in c["steps"] if s["op"] == "connect"]) < 2
@@ -145,10 +151,16 @@ def run(ck):
         for s in (c["steps"] if c["stream"] == "forced" else []):
             ops[s["op"]] = ops.get(s["op"], 0) + 1
         for key, why in impl_oracle(c):
+            small = c
+            if binp and replayed is None and c["stream"] == "forced" and key not in shrunk and len(shrunk) < 3 \
+                    and key != "hang":
+                shrunk.add(key)
+                small = rpc_common.shrink(ck, binp, c, key, impl_oracle)
             ck.violation("impl:%s" % key, why,
-                         {"case": c, "expected": "newest live endpoint registered; old end keeps new; ended "
-                                                 "unregistered; notifications paired",
-                          "observed": {"looks": c.get("looks"), "notes": c.get("notes")}})
+                         {"case": small, "original_case": c if small is not c else None,
+                          "expected": "newest live endpoint registered; old end keeps new; ended "
+                                      "unregistered; notifications paired",
+                          "observed": {"looks": small.get("looks"), "notes": small.get("notes")}})
     ck.coverage["step_kinds"] = ops
     ck.coverage["background_lookups_recorded"] = sum(len(c.get("bg", [])) for c in cases)
     for c in cases[:2] + cases[5:6]:
